@@ -171,6 +171,7 @@ fn run_split(ifc: &Iface, ctx: &Ctx, msg: &[u8], cuts: &[usize], expect: &[u8], 
         let mut st = (ifc.make)(ctx, msg);
         let key = if ifc.model == "Lazy128" { 128 } else { 0 };
         let mut prev = 0usize;
+        let mut drift: Option<Value> = None;
         let mut bounds: Vec<usize> = cuts.to_vec();
         bounds.push(msg.len());
         for (k, &c) in bounds.iter().enumerate() {
@@ -180,8 +181,9 @@ fn run_split(ifc: &Iface, ctx: &Ctx, msg: &[u8], cuts: &[usize], expect: &[u8], 
                 let (b, _) = st.obs();
                 let want = table_lookup(tables, ifc.model, key + c);
                 if let (Some(b), Some(w)) = (b, want) {
-                    if b != w {
-                        return Err(json!({"what": "buffer fill differs from the model", "after_update": k + 1, "absorbed": c, "got": b, "model": w}));
+                    if b != w && drift.is_none() {
+                        // the code buffers differently from IncHash.tla: a spec drift, not a verdict; the result decides
+                        drift = Some(json!({"what": "DRIFT: buffer fill differs from the model", "after_update": k + 1, "absorbed": c, "got": b, "model": w}));
                     }
                 }
             }
@@ -190,6 +192,7 @@ fn run_split(ifc: &Iface, ctx: &Ctx, msg: &[u8], cuts: &[usize], expect: &[u8], 
         if out != expect {
             return Err(json!({"what": "result differs from the one-shot function", "got": hex(&out), "oneshot": hex(expect)}));
         }
+        if let Some(d) = drift { return Err(d); }
         Ok(())
     });
     match r {
